@@ -1259,7 +1259,23 @@ class SX:
         calls = [i for i in insts if i.op in ('call', 'invoke')]
         if len(calls) != 1 or not self.is_handler_call(calls[0]) or any(i.op == 'store' for i in insts):
             return None
-        if len(L['exits']) != 1 or L['exits'][0][0] is not H or len(L['latches']) != 1:
+        nul = None
+        if len(L['exits']) == 2 and len(L['latches']) == 1 and L['exits'][0][1] is L['exits'][1][1]:
+            # `for (; n && *p; --n) handler(.., *p++)`: besides the counter an exit that tests the source byte against NUL
+            other_ex = [e for e in L['exits'] if e[0] is not H]
+            if len(other_ex) == 1 and any(e[0] is H for e in L['exits']):
+                tb = other_ex[0][0].term
+                cb = fn.inst_of(tb.ops[0]) if tb.op == 'br' and 'f' in tb.d and tb.ops else None
+                if cb is not None and cb.op == 'icmp' and cb.pred in ('ne', 'eq'):
+                    z = [o for o in cb.ops if o.k == 'ci' and o.ival == 0]
+                    o_ = [o for o in cb.ops if not (o.k == 'ci' and o.ival == 0)]
+                    ld = fn.inst_of(self.strip(fn, o_[0])) if len(z) == 1 and len(o_) == 1 else None
+                    stay_b = tb.d['t'] if cb.pred == 'ne' else tb.d['f']
+                    if ld is not None and ld.op == 'load' and ld.ops[0].k == 'inst' and fn.bmap[stay_b] in L['blocks']:
+                        nul = {'block': other_ex[0][0], 'load': ld}
+            if nul is None:
+                return None
+        elif len(L['exits']) != 1 or L['exits'][0][0] is not H or len(L['latches']) != 1:
             return None
         t = H.term
         if t.op != 'br' or 'f' not in t.d or t.ops[0].k != 'inst':
@@ -1338,8 +1354,10 @@ class SX:
                 src = 'ptr'
             else:
                 return None
+        if nul is not None and (ptr is None or nul['load'].ops[0].key() != ('i', ptr.id)):
+            return None
         return {'kind': 'countdown', 'cnt': cnt, 'dec': dec, 'init': init, 'ptr': ptr, 'pinit': pinit, 'call': call,
-                'src': src, 'guard': c.pred, 'exit': L['exits'][0][1], 'extras': extras}
+                'src': src, 'guard': c.pred, 'exit': L['exits'][0][1], 'extras': extras, 'nulstop': nul}
 
     def classify_countup(self, fn, L):
         """for (i = a; i < n; ++i) handler(.., c | p[i] | *q++)  -  the counting-up form of an emission loop (the bound is
@@ -1675,8 +1693,82 @@ class SX:
                     tab[L2['header'].name] = '%s#%d' % (nm, seen[nm])
         return tab.get(L['header'].name, name)
 
+    def nul_free(self, st, p0, c0):
+        """True: no NUL among the c0 bytes at p0 (c0 is the strlen/strnlen of exactly that pointer, or the bytes are known);
+        a Lin: c0 == 1 and that is the value of the one byte; None: unknown"""
+        if c0.is_const() and c0.c == 0:
+            return True
+        if isinstance(p0, P):
+            if len(c0.t) == 1 and c0.c == 0 and list(c0.t.values()) == [1]:
+                d = self.describe_opq(next(iter(c0.t)))
+                if d is not None and d[0] in ('strlen', 'strnlen') and d[1] == vkey(p0):
+                    return True
+            if p0.base in self.cstr:
+                if st.cons.entails_le(p0.off + c0, Lin.sym(self.cstr[p0.base])):
+                    return True
+                return ('first-nul-at', Lin.sym(self.cstr[p0.base]) - p0.off)
+            n = self.const_strlen(p0)
+            if n is not None and st.cons.entails_le(c0, n):
+                return True
+            if c0.is_const() and c0.c == 1 and p0.base[0] == 'a' and p0.off.is_const():
+                v = st.mem.get((p0.base, p0.off.c, 1))
+                if isinstance(v, Lin):
+                    return v
+        return None
+
+    def describe_opq(self, sym):
+        for desc, n in self.intern.items():
+            if 'q%d' % n == sym:
+                return desc
+        return None
+
     def finish_countdown(self, fn, info, st, c0, inits):
         H = info['cnt'].block
+        if info.get('nulstop') and not self.recording:
+            nm = fn.var_name(V({'k': 'inst', 'id': info['cnt'].id})) or info['cnt'].name
+            key = 'all counted characters are emitted (%s)' % self.loop_key(fn, {'header': H}, nm)
+            p0 = inits.get(info['ptr'].id)
+            nf = self.nul_free(st, p0, c0)
+            if nf is None:
+                raise AnalysisBroken('c06_sx: the emission loop %s of %s also stops at a NUL byte of its source and whether one '
+                                     'lies among the %r counted bytes is not known here' % (H.name, fn.name, c0))
+            if isinstance(nf, tuple):
+                # the source is a C string whose terminator is d bytes ahead: the loop emits min(c0, d) characters
+                d = nf[1]
+                out = []
+                for s, t in self.branch(st, ('cmp', 'sle', c0, d)):
+                    info2 = dict(info)
+                    info2['nulstop'] = None
+                    if t:
+                        out.extend(self.finish_countdown(fn, info2, s, c0, inits))
+                        continue
+                    self.oblige('emit-complete', fn, key, False, info['call'].where(),
+                                'the emission loop counts %r character(s) but also stops at a NUL byte of its source, which '
+                                'lies %r bytes ahead here: the characters from the NUL on are not handed to the output callback '
+                                'although they were counted (ISO C: %%c emits the NUL character)' % (c0, d))
+                    for (s3, H3, ex3) in self.finish_countdown(fn, info2, s, d, inits):
+                        s3.env[('i', info['cnt'].id)] = c0 - d
+                        out.append((s3, info['nulstop']['block'], ex3))
+                return out
+            if nf is not True:
+                out = []
+                for s, t in self.branch(st, ('cmp', 'eq', nf, Lin(0))):
+                    if t:
+                        self.oblige('emit-complete', fn, key, False, info['call'].where(),
+                                    'the emission loop counts %r character(s) but also stops at a NUL byte of its source: the '
+                                    'character with value 0 is not handed to the output callback although it was counted (ISO C: '
+                                    '%%c emits the NUL character)' % (c0,))
+                        s.env[('i', info['cnt'].id)] = c0
+                        s.env[('i', info['ptr'].id)] = p0
+                        for (ph, kind, k) in info.get('extras', ()):
+                            s.env[('i', ph.id)] = inits.get(ph.id)
+                        out.append((s, info['nulstop']['block'], info['exit']))
+                    else:
+                        info2 = dict(info)
+                        info2['nulstop'] = None
+                        out.extend(self.finish_countdown(fn, info2, s, c0, inits))
+                return out
+            self.oblige('emit-complete', fn, key, True, info['call'].where())
         st.env[('i', info['cnt'].id)] = Lin(0)
         if info['dec'].block is H:
             st.env[('i', info['dec'].id)] = Lin(-1)
